@@ -111,7 +111,11 @@ QueryOps(g) ==
   \cup { [Op("get_atom_attr") EXCEPT !.a = a, !.k = k] : a \in Ids, k \in {"q", "atom_type"} }
   \cup { [Op("has_bond") EXCEPT !.a = p[1], !.b = p[2]] : p \in Pairs }
   \cup { [Op("get_bond_attr") EXCEPT !.a = p[1], !.b = p[2], !.k = "w"] : p \in Pairs }
-  \cup { Op(n) : n \in {"n_atoms", "eq_self", "eq_copy", "hash", "str", "to_json", "to_rdmol"} }
+  \cup { Op(n) : n \in {"n_atoms", "n_components", "eq_self", "eq_copy", "hash", "str", "to_json", "to_rdmol"} }
+  \cup (IF HasRoles(g.kind) THEN
+          { [Op("role_bonds") EXCEPT !.ch = c] : c \in {"formed", "broken", "fleeting"} }
+          \cup { [Op("active_atoms") EXCEPT !.flag = f] : f \in BOOLEAN }
+        ELSE {})
   \cup (IF HasStereo(g.kind) THEN
           { [Op("get_atom_stereo") EXCEPT !.a = a] : a \in Ids }
           \cup { [Op("get_bond_stereo") EXCEPT !.a = p[1], !.b = p[2]] : p \in PairsLt }
